@@ -62,6 +62,11 @@ structure ClassDesc where
 
 /-! ## Slots -/
 
+def immSlots : List (String × Val) → List (String × Val)
+  | [] => []
+  | (k, .imm v) :: ss => (k, .imm v) :: immSlots ss
+  | (_, .ref _) :: ss => immSlots ss
+
 def refsOf : List (String × Val) → List Loc
   | [] => []
   | (_, .ref l) :: ss => l :: refsOf ss
@@ -162,12 +167,19 @@ def nav (h : Heap) : Loc → List String → Option Loc
 
 Every mutating operation of the API is a short sequence of `Step`s: navigate from the root to an object, then edit
 that object in place.  New objects are always freshly allocated; they may hold references to objects already
-reachable *from the same root* (`Src.alias`, e.g. `Trace(names)` keeps a reference to the model's own `names` list). -/
+reachable *from the same root* (`Src.alias`), never to anything else.  A list may be *copied* from anywhere
+(`Edit.copyList`: `Trace(list(names))` copies the model's own `names` or the class-level `TRACE_VARIABLES`): the copy
+is a new object, so no sharing arises. -/
 
 inductive Src where
   | imm (v : Imm)
   | alias (path : List String)   -- an object already reachable from the same root
-  | ext (l : Loc)                -- an object named from *outside* the root (a class-level list): creates sharing
+  deriving DecidableEq, Repr
+
+/-- Where `list(...)` takes its items from. -/
+inductive ListSrc where
+  | own (path : List String)     -- a list reachable from the same root
+  | ext (l : Loc)                -- a list named from outside the root (a class-level list)
   deriving DecidableEq, Repr
 
 inductive Edit where
@@ -175,6 +187,7 @@ inductive Edit where
   | push (v : Imm)                          -- `list.append(<immutable>)`
   | pop                                     -- `list.pop()`
   | bindNew (k : String) (kind : Kind) (slots : List (String × Src))   -- `obj[k] = <newly created object>`
+  | copyList (k : String) (src : ListSrc)   -- `obj[k] = list(<existing list>)`: a new list with the same items
   deriving DecidableEq, Repr
 
 structure Step where
@@ -192,10 +205,10 @@ def resolveSrcs (h : Heap) (root : Loc) : List (String × Src) → Option (List 
     match nav h root p, resolveSrcs h root ss with
     | some l, some r => some ((k, .ref l) :: r)
     | _, _ => none
-  | (k, .ext l) :: ss =>
-    match resolveSrcs h root ss with
-    | some r => some ((k, .ref l) :: r)
-    | none => none
+
+def listSrcLoc (h : Heap) (root : Loc) : ListSrc → Option Loc
+  | .own p => nav h root p
+  | .ext l => some l
 
 def withSlots (o : Obj) (ss : List (String × Val)) : Obj := ⟨o.kind, ss⟩
 
@@ -218,6 +231,11 @@ def applyEdit (h : Heap) (root l : Loc) : Edit → Heap
     match h[l]?, resolveSrcs h root srcs with
     | some o, some ss => (h ++ [Obj.mk kind ss]).set l (withSlots o (slotSet o.slots k (.ref h.length)))
     | _, _ => h
+  | .copyList k src =>
+    match h[l]?, (listSrcLoc h root src).bind (fun sl => h[sl]?) with
+    | some o, some so =>
+      (h ++ [Obj.mk .list (immSlots so.slots)]).set l (withSlots o (slotSet o.slots k (.ref h.length)))
+    | _, _ => h
 
 def applyStep (h : Heap) (root : Loc) (s : Step) : Heap :=
   match nav h root s.path with
@@ -233,9 +251,9 @@ def run (h : Heap) (root : Loc) : List Step → Heap
 
 /-- Where `trace_t` takes the variable names of a new `Trace` from. -/
 inductive TraceNames where
-  | own                          -- `TRACE_VARIABLES is None`: `names = self.names` (the instance's own list, by reference)
-  | classVars (l : Loc)          -- `names = self.TRACE_VARIABLES` (the class-level list, by reference)
-  | user (items : List String)   -- `trace=[...]`: the caller's list
+  | own                          -- `TRACE_VARIABLES is None`: `names = self.names` (the instance's own list)
+  | classVars (l : Loc)          -- `names = self.TRACE_VARIABLES` (the class-level list)
+  | user (items : List String)   -- `trace=[...]`: the caller's list   (in every case the `Trace` gets `list(names)`)
   deriving DecidableEq, Repr
 
 inductive Op where
@@ -265,6 +283,7 @@ def prefixSrc (pre : List String) : String × Src → String × Src
 def prefixStep (pre : List String) (s : Step) : Step :=
   match s.edit with
   | .bindNew k kind srcs => ⟨pre ++ s.path, .bindNew k kind (srcs.map (prefixSrc pre))⟩
+  | .copyList k (.own p) => ⟨pre ++ s.path, .copyList k (.own (pre ++ p))⟩
   | e => ⟨pre ++ s.path, e⟩
 
 def opSteps : Op → List Step
@@ -280,17 +299,14 @@ def opSteps : Op → List Step
   | .popLast f => [⟨f, .pop⟩]
   | .dictSet f k v => [⟨f, .setImm k (.str v)⟩]
   | .traceT t src fresh label n =>
+    -- `self[TRACE][t] = Trace(list(names))` with `names` = `self.names` / `self.TRACE_VARIABLES` / the caller's list
     (if fresh then
-      [⟨["_trace"], .bindNew (keyOf t) .trace
-          [("names", match src with
-              | .own => Src.alias ["names"]
-              | .classVars l => Src.ext l
-              | .user _ => Src.imm .none),
-           ("index", .imm .none), ("values", .imm .none)]⟩] ++
-      (match src with
-        | .user items => [⟨["_trace", keyOf t], .bindNew "names" .list (strSrcs items)⟩]
-        | _ => []) ++
-      [⟨["_trace", keyOf t], .bindNew "index" .list []⟩]
+      [⟨["_trace"], .bindNew (keyOf t) .trace [("names", .imm .none), ("index", .imm .none), ("values", .imm .none)]⟩,
+       (match src with
+        | .own => ⟨["_trace", keyOf t], .copyList "names" (.own ["names"])⟩
+        | .classVars l => ⟨["_trace", keyOf t], .copyList "names" (.ext l)⟩
+        | .user items => ⟨["_trace", keyOf t], .bindNew "names" .list (strSrcs items)⟩),
+       ⟨["_trace", keyOf t], .bindNew "index" .list []⟩]
      else []) ++
     [⟨["_trace", keyOf t, "index"], .push label⟩,
      ⟨["_trace", keyOf t], .bindNew "values" .array (cellSrcs n)⟩]
@@ -305,12 +321,11 @@ instance.  Which entries are *fresh* objects and which are *references to class-
 
   VectorContainer.__init__   span := the argument (by reference);  index := [];  _attributes := [...]
   ModelInterface.__init__    _status, _iterations, one array per name: fresh;  names := copy.deepcopy(self.NAMES)
-  BaseModel / BaseLinker     endogenous := self.ENDOGENOUS,  check := self.CHECK      ← the class-level lists themselves
+  BaseModel / BaseLinker     endogenous := list(self.ENDOGENOUS),  check := list(self.CHECK)   (fresh copies)
   AliasMixin.__init__        aliases := fresh dict,  preferred_names := copy.deepcopy(self.PREFERRED_NAMES)
   TracerMixin.__init__       _trace := object array of fresh `Trace([])`
   BaseLinker.__init__        submodels := the argument (by reference)
-
-`fix = true` is the *candidate patch* (instance attributes get copies of the class lists); the code is `fix = false`. -/
+ -/
 
 def classAttr (h : Heap) (cd : ClassDesc) (k : String) : Val :=
   match h[cd.attrs]? with
@@ -380,17 +395,15 @@ def stageInterface (cd : ClassDesc) (names : List String) (n : Nat) (h : Heap) :
             ("names", .ref (h.length + 2))] ++ vars ++
            [("lags", .imm (.tag "LAGS")), ("leads", .imm (.tag "LEADS"))])
 
-/-- Stage 5: `BaseModel.__init__` / `BaseLinker.__init__`: `add_attribute('endogenous', self.ENDOGENOUS)`,
-    `add_attribute('check', self.CHECK)`; `ve` / `vc` are the values of `self.ENDOGENOUS` / `self.CHECK`. -/
-def stageModel (fix : Bool) (cd : ClassDesc) (ve vc : Val) (h : Heap) : Heap × List (String × Val) :=
+/-- Stage 5: `BaseModel.__init__` / `BaseLinker.__init__`: `add_attribute('endogenous', list(self.ENDOGENOUS))`,
+    `add_attribute('check', list(self.CHECK))`: new lists with the items of the class-level lists; `ve` / `vc` are
+    the values of `self.ENDOGENOUS` / `self.CHECK`. -/
+def stageModel (cd : ClassDesc) (ve vc : Val) (h : Heap) : Heap × List (String × Val) :=
   if cd.base = .container then (h, [])
-  else if fix then
+  else
     (h ++ [freshCopyOf h ve .list, freshCopyOf h vc .list],
      [("endogenous", .ref h.length), ("check", .ref (h.length + 1))] ++
        (if cd.base = .model then [("engine", .imm (.str "python"))] else []))
-  else
-    (h, [("endogenous", ve), ("check", vc)] ++
-        (if cd.base = .model then [("engine", .imm (.str "python"))] else []))
 
 /-- Stage 6: `TracerMixin.__init__` (after `super().__init__`). -/
 def stageTracer (cd : ClassDesc) (n : Nat) (h : Heap) : Heap × List (String × Val) :=
@@ -408,17 +421,17 @@ def modelNames (h : Heap) (cd : ClassDesc) : List String :=
   if cd.base = .container then [] else valItems h (classAttr h cd "NAMES")
 
 /-- `cls(span, …)` up to (not including) the allocation of the instance `__dict__` itself. -/
-def construct (fix : Bool) (cd : ClassDesc) (h : Heap) (span sub : Val) : Heap × List (String × Val) :=
+def construct (cd : ClassDesc) (h : Heap) (span sub : Val) : Heap × List (String × Val) :=
   thread (stageTracer cd (spanLen h span))
-    (thread (stageModel fix cd (classAttr h cd "ENDOGENOUS") (classAttr h cd "CHECK"))
+    (thread (stageModel cd (classAttr h cd "ENDOGENOUS") (classAttr h cd "CHECK"))
       (thread (stageInterface cd (modelNames h cd) (spanLen h span))
         (thread (stageContainer cd (modelNames h cd) span)
           (thread (fun h0 => (h0, stageLinker cd sub))
             (thread (stageAlias cd) (h, []))))))
 
 /-- `cls(span)` / `cls(submodels)`: a new instance of class number `ci`; returns its location. -/
-def newInst (fix : Bool) (ci : Nat) (cd : ClassDesc) (h : Heap) (span sub : Val) : Heap × Loc :=
-  match construct fix cd h span sub with
+def newInst (ci : Nat) (cd : ClassDesc) (h : Heap) (span sub : Val) : Heap × Loc :=
+  match construct cd h span sub with
   | (h1, ss) => (h1 ++ [⟨.inst ci, ss⟩], h1.length)
 
 /-! ## `copy.deepcopy` and the `copy()` methods -/
@@ -449,11 +462,6 @@ def copyEachWith (dc : Copier) : Heap → List (String × Val) → Option (Heap 
       | none => none
       | some (h2, ss') => some (h2, (k, v') :: ss')
 
-def immSlots : List (String × Val) → List (String × Val)
-  | [] => []
-  | (k, .imm v) :: ss => (k, .imm v) :: immSlots ss
-  | (_, .ref _) :: ss => immSlots ss
-
 /-- The span handed to the constructor by `BaseLinker.copy` → `__init__`: `copy.deepcopy(base.span)` of the first
     (already copied) submodel, `[]` without submodels.  Span labels are hashable, i.e. immutable values, so the deep
     copy of a list span is a new list with the same labels.  (The entry is overwritten by the `__dict__.update`
@@ -474,7 +482,7 @@ def linkerSpan (h : Heap) (subs : List (String × Val)) : Heap × Val :=
 
 /-- `VectorContainer.copy` / `BaseLinker.copy` of the instance object `o` of class `cd`; returns the heap and the
     new `__dict__` (not yet allocated). -/
-def copyInstWith (fix : Bool) (dc : Copier) (cd : ClassDesc) (h : Heap) (o : Obj) :
+def copyInstWith (dc : Copier) (cd : ClassDesc) (h : Heap) (o : Obj) :
     Option (Heap × List (String × Val)) :=
   if cd.base = .linker then
     -- copied = self.__class__(submodels={deepcopy(k): deepcopy(v) …}); copied.__dict__.update({k: deepcopy(v) … if k != 'submodels'})
@@ -486,7 +494,7 @@ def copyInstWith (fix : Bool) (dc : Copier) (cd : ClassDesc) (h : Heap) (o : Obj
       | some (h1, subs) =>
         match linkerSpan (h1 ++ [⟨.dict, subs⟩]) subs with
         | (h2, sp) =>
-          match construct fix cd h2 sp (.ref h1.length) with
+          match construct cd h2 sp (.ref h1.length) with
           | (h3, init) =>
             match copyEachWith dc h3 (dropKey "submodels" o.slots) with
             | none => none
@@ -496,7 +504,7 @@ def copyInstWith (fix : Bool) (dc : Copier) (cd : ClassDesc) (h : Heap) (o : Obj
     match dc h [] ((o.slots.lookup "span").getD (.imm .none)) with
     | none => none
     | some (h1, _, sp) =>
-      match construct fix cd h1 sp (.imm .none) with
+      match construct cd h1 sp (.imm .none) with
       | (h2, init) =>
         match copyEachWith dc h2 o.slots with
         | none => none
@@ -504,7 +512,7 @@ def copyInstWith (fix : Bool) (dc : Copier) (cd : ClassDesc) (h : Heap) (o : Obj
 
 /-- `copy.deepcopy(v, memo)`.  Instances define `__deepcopy__` = `self.copy()` (the memo is not passed on).
     `none` = out of fuel (cyclic heap) or dangling reference. -/
-def deepcopy (fix : Bool) (cs : List ClassDesc) : Nat → Copier
+def deepcopy (cs : List ClassDesc) : Nat → Copier
   | _, h, m, .imm v => some (h, m, .imm v)
   | 0, _, _, .ref _ => none
   | n + 1, h, m, .ref l =>
@@ -519,18 +527,18 @@ def deepcopy (fix : Bool) (cs : List ClassDesc) : Nat → Copier
           match cs[ci]? with
           | none => none
           | some cd =>
-            match copyInstWith fix (deepcopy fix cs n) cd h o with
+            match copyInstWith (deepcopy cs n) cd h o with
             | none => none
             | some (h1, ss) => some (h1 ++ [⟨.inst ci, ss⟩], (l, h1.length) :: m, .ref h1.length)
         | _ =>
-          match copySlotsWith (deepcopy fix cs n) h m o.slots with
+          match copySlotsWith (deepcopy cs n) h m o.slots with
           | none => none
           | some (h1, m1, ss) => some (h1 ++ [⟨o.kind, ss⟩], (l, h1.length) :: m1, .ref h1.length)
 
 /-- `a.copy()`, `copy.copy(a)` (`__copy__ = copy`) and `copy.deepcopy(a)` (`__deepcopy__` returns `self.copy()`):
     the same function.  Fuel: the heap size bounds the depth of any acyclic structure. -/
-def copyRoot (fix : Bool) (cs : List ClassDesc) (h : Heap) (a : Loc) : Option (Heap × Loc) :=
-  match deepcopy fix cs (h.length + 1) h [] (.ref a) with
+def copyRoot (cs : List ClassDesc) (h : Heap) (a : Loc) : Option (Heap × Loc) :=
+  match deepcopy cs (h.length + 1) h [] (.ref a) with
   | some (h1, _, .ref c) => some (h1, c)
   | _ => none
 
@@ -564,21 +572,6 @@ def view (h : Heap) : Nat → Val → List String
 
 Executable so that the driver can evaluate them on the heaps of the correspondence programs and the proofs can
 discharge them by `decide` on concrete worlds; their soundness lemmas are in `Proofs/Lemmas/HeapCheck.lean`. -/
-
-/-- A step is *local* when the objects it creates reference only objects reachable from the same root
-    (no `Src.ext`). -/
-def srcsLocal : List (String × Src) → Bool
-  | [] => true
-  | (_, .ext _) :: _ => false
-  | _ :: ss => srcsLocal ss
-
-def Step.isLocal (s : Step) : Bool :=
-  match s.edit with
-  | .bindNew _ _ srcs => srcsLocal srcs
-  | _ => true
-
-/-- All steps of a history are local (create no reference to an object outside the root's own reach). -/
-def stepsLocal (steps : List Step) : Bool := steps.all Step.isLocal
 
 def ctorKeys (cd : ClassDesc) (names : List String) : List String :=
   (if cd.alias then ["aliases", "preferred_names"] else []) ++
@@ -621,8 +614,6 @@ def instOKB (cs : List ClassDesc) (h : Heap) (o : Obj) : Bool :=
     (match cs[ci]? with
       | none => true
       | some cd =>
-        (decide (cd.base = .container) ||
-          (decide ("endogenous" ∈ keysOf o) && decide ("check" ∈ keysOf o))) &&
         (ctorKeys cd (modelNames h cd)).all fun k => decide (k ∈ keysOf o))
   | _ => true
 
